@@ -79,10 +79,11 @@ fn input_type(rng: &mut Rng, s: &Schema) -> String {
     t
 }
 
-fn config_options(allow: bool) -> OperationTypePrinterOptions {
-    let yaml = format!("schema: schema.graphql\ndocuments: ops/*.graphql\nextensions:\n  nitrogql:\n    generate:\n      type:\n        allowUndefinedAsOptionalInput: {allow}\n");
+/// options as the CLI builds them: from configuration TEXT; `configured` = the key as written (None = absent)
+fn config_options(configured: Option<bool>) -> OperationTypePrinterOptions {
+    let key = match configured { Some(b) => format!("      type:\n        allowUndefinedAsOptionalInput: {b}\n"), None => "      mode: with-loader-ts-5.0\n".to_string() };
+    let yaml = format!("schema: schema.graphql\ndocuments: ops/*.graphql\nextensions:\n  nitrogql:\n    generate:\n{key}");
     let config = parse_config(&yaml).expect("config");
-    assert_eq!(config.generate.r#type.allow_undefined_as_optional_input, allow);
     OperationTypePrinterOptions::from_config(&config)
 }
 
@@ -157,7 +158,10 @@ fn main() {
                 let frags = HashMap::new();
                 let direct_opts = OperationTypePrinterOptions { allow_undefined_as_optional_input: allow, schema_root_namespace: ns.clone(), ..Default::default() };
                 let direct = get_type_for_variable_definitions(&QueryTypePrinterContext { options: &direct_opts, schema: &ts, fragment_definitions: &frags }, vars);
-                let config_opts = config_options(allow);
+                // the key is sometimes left out when the option is on (default)
+                let configured = if allow && rng.chance(1, 3) { None } else { Some(allow) };
+                bump(match configured { None => "config:absent", Some(true) => "config:true", Some(false) => "config:false" });
+                let config_opts = config_options(configured);
                 let via_config = get_type_for_variable_definitions(&QueryTypePrinterContext { options: &config_opts, schema: &ts, fragment_definitions: &frags }, vars);
                 let mut w = Rec::new();
                 direct.print_type(&mut w);
@@ -173,8 +177,8 @@ fn main() {
                 }
                 if !allow && vars.definitions.iter().any(|v| !v.r#type.is_nonnull()) { any_config_interesting = true; }
                 distinct.insert(format!("{sdl}|{text}|{allow}"));
-                runs_coq.push(format!("(mkOpRun {} {} {} {} {})", ast_coq::vardefs(vars), coq_bool(allow), ts_coq::tstype(&direct), ops_coq(&w.coalesced()), ts_coq::tstype(&via_config)));
-                runs_j.push(json!({"operation": text, "origin": origin, "accepted": accepted, "allowUndefinedAsOptionalInput": allow,
+                runs_coq.push(format!("(mkOpRun {} {} {} {} {} {})", ast_coq::vardefs(vars), coq_bool(allow), coq_opt(&configured, |b| coq_bool(*b).to_string()), ts_coq::tstype(&direct), ops_coq(&w.coalesced()), ts_coq::tstype(&via_config)));
+                runs_j.push(json!({"operation": text, "origin": origin, "accepted": accepted, "allowUndefinedAsOptionalInput": allow, "configured": configured,
                                    "variables": vars.definitions.iter().map(|v| format!("${}", v.name.name)).collect::<Vec<_>>(), "variables_type": w.text()}));
             }
         }
